@@ -68,6 +68,11 @@
 (* the step tolerance is.  Where the step tolerance is coarser a class with large drift   *)
 (* carries one more bit, `loose`: the last change is within the COARSER tolerance        *)
 (* (absolutely or relative to |last|) although it exceeds the steady-state one.          *)
+(*                                                                                    *)
+(* The search horizon T (ParameterInitialSteadyStateMaxTime) is part of the state as     *)
+(* `horizon`: "one" (a single computed period: the previous value of every series is its *)
+(* initial condition), "two", "many".  The final two values of a series are compared     *)
+(* whatever the horizon is.  (T = 0 gives no pair of values at all: see c15.py.)         *)
 (* The operators JudgeBad / SteadyClass and the actions are the single source of truth *)
 (* for Steady_Trace.                                                                   *)
 EXTENDS Integers, Sequences, FiniteSets, TLC
@@ -76,12 +81,16 @@ CONSTANTS
     Schemes,         \* the systems of the bounded instance: set of records
                      \*   [id, names : sequence of names (one per series), kinds : sequence of kinds,
                      \*    tdep : sequence of time dependences, steptol : the solver's own tolerance option,
+                     \*    horizon : the search horizon,
                      \*    grid : sequence, grid[i] = set of classes series i may end in,
                      \*    excls : set of sets of names the user may exclude]
     AllowMalformed,  \* BOOLEAN: also systems that are not well formed (Run may fail with any exception)
     AsFound_AcceptanceUsesStepTolerance,
                      \* TRUE: a seeded variant: the acceptance test compares with
                      \*       max(steady-state tolerance, ParameterErrorTolerance).  FALSE: the code.
+    AsFound_ShortHorizonNotCompared,
+                     \* TRUE: a seeded variant: with a single computed period the previous value is taken to be
+                     \*       the last one, so nothing is ever rejected.  FALSE: the code.
     AsFound_TimeAxisFrozen,
                      \* TRUE: a seeded variant: the axis -T..0 is built BEFORE the loop that freezes every exogenous
                      \*       series, which then overwrites it with the constant -T.  FALSE: the code.
@@ -170,6 +179,7 @@ Outer0  == [eq |-> 1, exo |-> 1, hor |-> 1]
 NoCopy  == [eq |-> 0, exo |-> 0, hor |-> 0, axis |-> "none"]
 TDeps   == {"none", "settled", "trend"}
 StepTols == {"none", "finer", "coarser"}
+Horizons == {"one", "two", "many"}
 FrozenExo == 2      \* identity of "every exogenous series constant at its k=0 value"
 SearchHor == 2      \* identity of the search horizon T
 
@@ -180,6 +190,7 @@ VARIABLES
     kinds,      \* sequence (length n) of their kinds
     tdep,       \* sequence (length n) of their time dependences
     steptol,    \* ParameterErrorTolerance relative to the steady-state tolerance
+    horizon,    \* the search horizon: one / two / many computed periods
     option,     \* ParameterInitialSteadyStateExcludedVariables: a set of names
     excluded,   \* subset of 1..n: the series the acceptance loop skips
     sid,        \* id of the scheme the system was taken from (0: none)
@@ -192,12 +203,13 @@ VARIABLES
     outer,      \* snapshot of the solver that is being initialised
     inner       \* the same three identities of the copy the search works on
 
-sys  == << n, names, kinds, tdep, steptol, option, excluded, wf, sid >>      \* the system and the option: never change
+sys  == << n, names, kinds, tdep, steptol, horizon, option, excluded, wf, sid >>      \* the system and the option: never change
 vars == << phase, sys, runres, cls, judged, bad, exc, outer, inner >>
 
 Min(S) == CHOOSE x \in S : \A y \in S : x <= y
 
-Setup(nms, kds, tds, st, opt, w, id) ==
+Setup(nms, kds, tds, st, hz, opt, w, id) ==
+    /\ horizon = hz
     /\ phase = "idle" /\ n = Len(nms) /\ names = nms /\ kinds = kds /\ tdep = tds /\ steptol = st /\ option = opt /\ wf = w /\ sid = id
     /\ excluded = SkippedSet(nms, kds, opt)
     /\ runres = "none" /\ cls = << >> /\ judged = {} /\ bad = {} /\ exc = ""
@@ -207,7 +219,7 @@ MinId == Min({ s.id : s \in Schemes })
 Init == \E s \in Schemes, w \in (IF AllowMalformed THEN BOOLEAN ELSE {TRUE}) :
           \E ex \in s.excls :
             /\ (~w => (s.id = MinId /\ ex = {}))      \* one malformed system is enough
-            /\ Setup(s.names, s.kinds, s.tdep, s.steptol, OptionOf(ex), w, s.id)
+            /\ Setup(s.names, s.kinds, s.tdep, s.steptol, s.horizon, OptionOf(ex), w, s.id)
 
 Copy ==
     /\ phase = "idle"
@@ -234,7 +246,8 @@ Run(res, c) ==
     /\ UNCHANGED << sys, judged, bad, exc, outer, inner >>
 
 (* the class the acceptance loop gets to see: on a constant time axis a time-dependent series is at rest *)
-Seen(v) == IF inner.axis = "frozen" /\ tdep[v] # "none"
+Seen(v) == IF \/ (inner.axis = "frozen" /\ tdep[v] # "none")
+              \/ (AsFound_ShortHorizonNotCompared /\ horizon = "one")      \* prev := last
            THEN [cls[v] EXCEPT !.drift = "zero", !.last = cls[v].prev, !.stays = TRUE]
            ELSE cls[v]
 (* the level the search ended at belongs to k = 0 *)
@@ -320,7 +333,7 @@ C15_LeavesSolverUntouched == [][outer' = outer]_vars
 
 TypeOK ==
     /\ phase \in {"idle", "copied", "frozen", "ran", "judging", "installed", "rejected", "raised"}
-    /\ n = Len(names) /\ n = Len(kinds) /\ n = Len(tdep) /\ steptol \in StepTols /\ (\A i \in 1..n : tdep[i] \in TDeps) /\ \A i \in 1..n : kinds[i] \in Kinds
+    /\ n = Len(names) /\ n = Len(kinds) /\ n = Len(tdep) /\ steptol \in StepTols /\ horizon \in Horizons /\ (\A i \in 1..n : tdep[i] \in TDeps) /\ \A i \in 1..n : kinds[i] \in Kinds
     /\ excluded \subseteq 1..n
     /\ runres \in {"none", "ok", "conv", "valerr", "other"}
     /\ (runres = "ok") => (Len(cls) = n /\ \A i \in 1..n : (cls[i] \in LooseOf(AllClasses)
